@@ -84,6 +84,10 @@ Definition ren (old new : str) (b : mbox) : mbox :=
 Definition with_boxes (st : store) (bs : list mbox) : store := MkStore bs (subs st) (next_msg st).
 Definition with_subs (st : store) (l : list str) : store := MkStore (boxes st) l (next_msg st).
 
+(** RFC 3501 6.3.3: a trailing hierarchy separator only declares the intent to create inferior
+    names; the name created is the one without it.  The separator is removed FIRST: the empty-name,
+    INBOX, Roles-namespace and already-exists tests all see the name that would be created
+    (CREATE inbox/ is CREATE inbox: refused) *)
 Definition spec_create (st : store) (n0 : str) : store * res :=
   let n := trim_suffix n0 [delim] in
   if is_nil n then (st, RNo)
